@@ -406,6 +406,8 @@ def random_runs(ctx, pool, cov, runs, judge_graphs=False):
         agg["tlc_states"] += info.get("states", 0)
         agg["flushes_failed"] = agg.get("flushes_failed", 0) + st.get("flushes-failed", 0)
         agg["evicted_after_failed_flush"] = agg.get("evicted_after_failed_flush", 0) + st.get("evicted-after-failed-flush", 0)
+        agg["read_fault_rounds"] = agg.get("read_fault_rounds", 0) + st.get("read-fault-rounds", 0)
+        agg["prefix_named_tables"] = agg.get("prefix_named_tables", 0) + st.get("prefix-named-tables", 0)
         agg["pages_round_tripped"] = agg.get("pages_round_tripped", 0) + st.get("pages-round-tripped", 0)
         agg["cachefull_statements_restarted"] = agg.get("cachefull_statements_restarted", 0) + st.get("cachefull-stmts", 0)
         agg["mixed_refused_updates"] = agg.get("mixed_refused_updates", 0) + st.get("mixed-updates", 0)
